@@ -112,6 +112,18 @@ Definition o_c        : list N := Eval vm_compute in s2l "text:c"%string.
 Definition o_tab      : list N := Eval vm_compute in s2l "text:tab"%string.
 Definition o_break    : list N := Eval vm_compute in s2l "text:line-break"%string.
 Definition o_span     : list N := Eval vm_compute in s2l "text:span"%string.
+Definition o_ruby      : list N := Eval vm_compute in s2l "text:ruby"%string.
+Definition o_ruby_base : list N := Eval vm_compute in s2l "text:ruby-base"%string.
+Definition o_ruby_text : list N := Eval vm_compute in s2l "text:ruby-text"%string.
+(* some drawing objects by name (used in examples; the reader knows them by prefix only) *)
+Definition o_frame     : list N := Eval vm_compute in s2l "draw:frame"%string.
+Definition o_text_box  : list N := Eval vm_compute in s2l "draw:text-box"%string.
+Definition o_image     : list N := Eval vm_compute in s2l "draw:image"%string.
+Definition o_draw_g    : list N := Eval vm_compute in s2l "draw:g"%string.
+Definition o_cshape    : list N := Eval vm_compute in s2l "draw:custom-shape"%string.
+Definition o_scene     : list N := Eval vm_compute in s2l "dr3d:scene"%string.
+Definition p_draw      : list N := Eval vm_compute in s2l "draw:"%string.
+Definition p_dr3d      : list N := Eval vm_compute in s2l "dr3d:"%string.
 Definition o_style_name : list N := Eval vm_compute in s2l "text:style-name"%string.
 Definition o_value    : list N := Eval vm_compute in s2l "office:value"%string.
 Definition o_string_value : list N := Eval vm_compute in s2l "office:string-value"%string.
@@ -645,9 +657,25 @@ Definition parse_i32 (v : str) : option Z :=
 Definition SPACE : N := 32.
 Definition spaces (count : Z) : str := repeat SPACE (Z.to_nat count).   (* for _ in 0..count *)
 
+(* <[u8]>::starts_with *)
+Fixpoint starts_with (p n : str) : bool :=
+  match p, n with
+  | [], _ => true
+  | x :: p', y :: n' => (x =? y) && starts_with p' n'
+  | _ :: _, [] => false
+  end.
+(* the elements whose whole subtree the content loop passes over (read_to_end_into): drawing
+   objects anchored to the cell (fix ODS-1) and the phonetic guide of a text:ruby (fix ODS-4) *)
+Definition skipped_subtree (n : str) : bool :=
+  starts_with p_draw n || starts_with p_dr3d n || str_eqb n o_ruby_text.
+
+(* [paras] = `paragraphs`, the number of open text:p elements (a usize: `+= 1` cannot overflow on
+   an input that fits in memory; `saturating_sub(1)` is the truncated subtraction of N) *)
 Inductive od_state : Type :=
-| OdMain (s : str) (first : bool)      (* the content loop *)
-| OdAnnot (s : str) (first : bool)     (* the inner loop skipping office:annotation *)
+| OdMain (s : str) (first : bool) (paras : N)    (* the content loop *)
+| OdAnnot (s : str) (first : bool) (paras : N)   (* the inner loop skipping office:annotation *)
+| OdSub (name : str) (depth : N) (s : str) (first : bool) (paras : N)
+                                       (* read_to_end_into(name) inside the content loop *)
 | OdSkip (depth : N).                  (* read_row: read_to_end_into(cell name) when !is_closed *)
 
 (* [cname] is the name of the cell's Start event; the content loop only runs when the value
@@ -655,33 +683,45 @@ Inductive od_state : Type :=
 Definition od_step (cname : str) (val : odsval) (st : od_state) (e : event)
   : step_res od_state odsval :=
   match st with
-  | OdMain s first =>
+  | OdMain s first paras =>
     match e with
-    | Text t => Cont (OdMain (s ++ t) first)
-    | CData t => Cont (OdMain (s ++ t) first)                     (* Event::CData (db4dbf4) *)
+    (* character data is cell text only inside a paragraph (fix ODS-3) *)
+    | Text t => if 0 <? paras then Cont (OdMain (s ++ t) first paras) else Cont st
+    | CData t => if 0 <? paras then Cont (OdMain (s ++ t) first paras) else Cont st   (* Event::CData (db4dbf4) *)
     | End n =>
-      if str_eqb n o_cell || str_eqb n o_covered then Ret (OString s) else Cont st
+      if str_eqb n o_p then Cont (OdMain s first (paras - 1))
+      else if str_eqb n o_cell || str_eqb n o_covered then Ret (OString s) else Cont st
     | Start n a =>
-      if str_eqb n o_annot then Cont (OdAnnot s first)
+      if str_eqb n o_annot then Cont (OdAnnot s first paras)
+      else if skipped_subtree n then Cont (OdSub n 0 s first paras)
       else if str_eqb n o_p then
-        if first then Cont (OdMain s false) else Cont (OdMain (s ++ [10]) false)
+        if first then Cont (OdMain s false (paras + 1)) else Cont (OdMain (s ++ [10]) false (paras + 1))
       else if str_eqb n o_s then
         match get_attribute a o_c with
         | Some c =>
           match parse_i32 c with
-          | Some k => Cont (OdMain (s ++ spaces k) first)
+          | Some k => Cont (OdMain (s ++ spaces k) first paras)
           | None => Fail ERR_PARSEINT
           end
-        | None => Cont (OdMain (s ++ [SPACE]) first)
+        | None => Cont (OdMain (s ++ [SPACE]) first paras)
         end
-      else if str_eqb n o_tab then Cont (OdMain (s ++ [9]) first)          (* s.push('\t') (69a4591) *)
-      else if str_eqb n o_break then Cont (OdMain (s ++ [10]) first)       (* s.push('\n') (69a4591) *)
+      else if str_eqb n o_tab then Cont (OdMain (s ++ [9]) first paras)          (* s.push('\t') (69a4591) *)
+      else if str_eqb n o_break then Cont (OdMain (s ++ [10]) first paras)       (* s.push('\n') (69a4591) *)
       else Cont st
     | _ => Cont st
     end
-  | OdAnnot s first =>
+  | OdAnnot s first paras =>
     match e with
-    | End n => if str_eqb n o_annot then Cont (OdMain s first) else Cont st
+    | End n => if str_eqb n o_annot then Cont (OdMain s first paras) else Cont st
+    | _ => Cont st
+    end
+  | OdSub name depth s first paras =>
+    match e with
+    | Start n _ => if str_eqb n name then Cont (OdSub name (depth + 1) s first paras) else Cont st
+    | End n =>
+      if str_eqb n name then
+        if depth =? 0 then Cont (OdMain s first paras) else Cont (OdSub name (depth - 1) s first paras)
+      else Cont st
     | _ => Cont st
     end
   | OdSkip depth =>
@@ -712,7 +752,7 @@ Fixpoint od_run (cname : str) (val : odsval) (st : od_state) (evs : list event)
 Definition ods_cell (cname : str) (a : attrs) (evs : list event)
   : outcome (odsval * str * list event) :=
   let '(is_string, is_set, val, formula) := ods_attrs a false false OEmpty [] in
-  do r <- (if negb is_set && is_string then od_run cname val (OdMain [] true) evs
+  do r <- (if negb is_set && is_string then od_run cname val (OdMain [] true 0) evs
            else od_run cname val (OdSkip 0) evs);
   Ok (fst r, formula, snd r).
 
@@ -896,11 +936,29 @@ Inductive opiece : Type :=
 | OBreak                            (* <text:line-break/> *)
 | OSpanOpen (style : str)           (* <text:span text:style-name="…"> *)
 | OSpanClose                        (* </text:span> *)
-| OOther.                           (* comment *)
+| OOther                            (* comment *)
+(* a phonetic guide (ODF 1.2 part 1, 6.4): <text:ruby text:style-name="…"><text:ruby-base> the
+   annotated text (any pieces) </text:ruby-base><text:ruby-text> the reading </text:ruby-text>
+   </text:ruby>.  The base is cell text, the reading is not. *)
+| ORubyOpen (style : str)
+| ORubyClose
+| ORubyBaseOpen
+| ORubyBaseClose
+| ORubyText (style : option str) (body : list event)
+(* a drawing object anchored as a character inside the paragraph (draw:frame, …) *)
+| OShape (name : str) (a : attrs) (body : list event).
 
+(* the children of a string cell (ODF 1.2 part 1, 9.1.4): an optional office:annotation, the
+   paragraphs, and the drawing objects anchored to the cell — images (draw:frame > draw:image,
+   which may hold a text:p), shapes (draw:custom-shape, draw:rect, draw:g … with text:p children of
+   their own), text boxes (draw:frame > draw:text-box > paragraphs), 3-D scenes (dr3d:scene).  Between
+   the children an indented file has white space; comments may stand anywhere. *)
 Inductive citem : Type :=
 | CPara (ps : list opiece)          (* <text:p>…</text:p> *)
-| CAnnot (body : list event).       (* <office:annotation>…</office:annotation> *)
+| CAnnot (body : list event)        (* <office:annotation>…</office:annotation> *)
+| CWs (ws : str)                    (* white space between the children (indentation) *)
+| CComment                          (* <!-- … --> between the children *)
+| CShape (name : str) (a : attrs) (body : list event).   (* <draw:…>…</draw:…>, <dr3d:scene>… *)
 
 Definition opiece_events (p : opiece) : list event :=
   match p with
@@ -913,12 +971,23 @@ Definition opiece_events (p : opiece) : list event :=
   | OSpanOpen st => [Start o_span [(o_style_name, st)]]
   | OSpanClose => [End o_span]
   | OOther => [Other]
+  | ORubyOpen st => [Start o_ruby [(o_style_name, st)]]
+  | ORubyClose => [End o_ruby]
+  | ORubyBaseOpen => [Start o_ruby_base []]
+  | ORubyBaseClose => [End o_ruby_base]
+  | ORubyText st body =>
+    Start o_ruby_text (match st with Some n => [(o_style_name, n)] | None => [] end)
+    :: body ++ [End o_ruby_text]
+  | OShape n a body => Start n a :: body ++ [End n]
   end.
 
 Definition citem_events (c : citem) : list event :=
   match c with
   | CPara ps => Start o_p [] :: flat_map opiece_events ps ++ [End o_p]
   | CAnnot body => Start o_annot [] :: body ++ [End o_annot]
+  | CWs ws => [Text ws]
+  | CComment => [Other]
+  | CShape n a body => Start n a :: body ++ [End n]
   end.
 Definition content_events (cs : list citem) : list event := flat_map citem_events cs.
 
@@ -942,12 +1011,37 @@ Fixpoint join_nl (l : list str) : str :=
   | x :: r => x ++ 10 :: join_nl r
   end.
 Definition paras_of (cs : list citem) : list (list opiece) :=
-  flat_map (fun c => match c with CPara ps => [ps] | CAnnot _ => [] end) cs.
+  flat_map (fun c => match c with CPara ps => [ps] | _ => [] end) cs.
 Definition content_text (cs : list citem) : str := join_nl (map para_text (paras_of cs)).
+
+(* the content of an element named [name] as far as a reader that only counts the tags of that
+   name can tell: [sub_depth] runs the nesting depth over the events (None: an end tag of that
+   name without its start tag, i.e. the content would end early); [sub_ok]: every start tag of
+   that name inside has its end tag inside.  Everything else — text, paragraphs, other elements
+   in any arrangement — is free.  (draw:g inside draw:g is the usual case of nesting.) *)
+Fixpoint sub_depth (name : str) (body : list event) (d : N) : option N :=
+  match body with
+  | [] => Some d
+  | Start n _ :: r => if str_eqb n name then sub_depth name r (d + 1) else sub_depth name r d
+  | End n :: r =>
+    if str_eqb n name then (if d =? 0 then None else sub_depth name r (d - 1))
+    else sub_depth name r d
+  | _ :: r => sub_depth name r d
+  end.
+Definition sub_ok (name : str) (body : list event) : bool :=
+  match sub_depth name body 0 with Some 0 => true | _ => false end.
+
+(* the element names of drawing objects: the draw: and dr3d: namespaces under their conventional
+   prefixes (every producer uses them; the reader matches qualified names as bytes) *)
+Definition is_drawing (n : str) : bool := starts_with p_draw n || starts_with p_dr3d n.
+(* XML white space *)
+Definition is_xml_ws (c : N) : bool := (c =? 32) || (c =? 9) || (c =? 10) || (c =? 13).
 
 Definition legal_opiece (p : opiece) : bool :=
   match p with
   | OSp (Some c) => match parse_i32 c with Some k => (0 <=? k)%Z | None => false end
+  | ORubyText _ body => sub_ok o_ruby_text body
+  | OShape n _ body => is_drawing n && sub_ok n body
   | _ => true
   end.
 Definition event_not_end (n : str) (e : event) : bool :=
@@ -956,6 +1050,9 @@ Definition legal_citem (c : citem) : bool :=
   match c with
   | CPara ps => forallb legal_opiece ps
   | CAnnot body => forallb (event_not_end o_annot) body
+  | CWs ws => forallb is_xml_ws ws
+  | CComment => true
+  | CShape n _ body => is_drawing n && sub_ok n body
   end.
 Definition legal_content (cs : list citem) : bool := forallb legal_citem cs.
 
